@@ -17,7 +17,10 @@ func init() {
 func runC02(c *Ctx) {
 	c.R.Rule("T-alloc", "every allocation (make slice/map, ReadBytes length) in the node whose size derives from an integer decoded with ReadVarUint/ReadUint32/ReadUint64 is reachable only through the surviving arm of a comparison of the full-width decoded value with an untainted bound")
 	c.R.Rule("E-decode", "inside decode functions of the wire and checkpoint packages the error result of every nested Deserialize*/Read* call is used (tested or returned), so truncated input stops the surrounding loop")
-	c.tAlloc("T-alloc", 7, 7, map[string]string{})
+	c.R.Rule("N-factory", "the decoder's object factories (interfaces.GetPayload, transaction.GetTransaction) return a non-nil object on every path on which they return a nil error: the decoder calls a method on the result after testing the error only")
+	c.tAlloc("T-alloc", 11, 11, map[string]string{})
+	c.factoryNonNil("N-factory", "core/types/interfaces", "GetPayload")
+	c.factoryNonNil("N-factory", "core/transaction", "GetTransaction")
 	c.droppedDecodeErrors("E-decode", append(append([]string{"p2p/msg", "dpos/p2p/msg", "elanet/bloom", "p2p"}, wirePkgs...), ckptPkgs...))
 }
 
@@ -92,4 +95,69 @@ func (c *Ctx) droppedDecodeErrors(rule string, rels []string) {
 
 var decodeErrIdioms = map[string]string{
 	"(*cr/state.Candidate).Deserialize|ReadUint32": "the error of reading CancelHeight is superseded by the immediately following DepositHash.Deserialize on the same reader, which fails on the same truncated input",
+}
+
+// nonNilIface: the interface value is non-nil on every path (a boxed concrete value).
+func nonNilIface(v ssa.Value, seen map[ssa.Value]bool) bool {
+	if seen[v] {
+		return true
+	}
+	seen[v] = true
+	switch x := v.(type) {
+	case *ssa.MakeInterface:
+		return true
+	case *ssa.ChangeInterface:
+		return nonNilIface(x.X, seen)
+	case *ssa.Phi:
+		for _, e := range x.Edges {
+			if !nonNilIface(e, seen) {
+				return false
+			}
+		}
+		return true
+	}
+	return false
+}
+
+// factoryNonNil: every return of fn = func(...) (I, error) that carries the nil error carries a non-nil object.
+func (c *Ctx) factoryNonNil(rule, rel, name string) {
+	f := c.fn(rel, "", name)
+	if f == nil {
+		return
+	}
+	n := 0
+	for _, ret := range ssau.Returns(f) {
+		if len(ret.Results) != 2 {
+			continue
+		}
+		v, e := ret.Results[0], ret.Results[1]
+		type pair struct{ v, e ssa.Value }
+		var pairs []pair
+		pv, okv := v.(*ssa.Phi)
+		pe, oke := e.(*ssa.Phi)
+		switch {
+		case okv && oke && pv.Block() == pe.Block():
+			for i := range pv.Edges {
+				pairs = append(pairs, pair{pv.Edges[i], pe.Edges[i]})
+			}
+		case oke:
+			for i := range pe.Edges {
+				pairs = append(pairs, pair{v, pe.Edges[i]})
+			}
+		default:
+			pairs = []pair{{v, e}}
+		}
+		for _, p := range pairs {
+			if !ssau.IsNilConst(p.e) {
+				continue
+			}
+			n++
+			ok := nonNilIface(p.v, map[ssa.Value]bool{})
+			if !ok {
+				c.R.Check(rule, name+"|nil error implies an object", false, c.posOf(ret), fmt.Sprintf("%s can return (nil, nil): some path assigns no object and no error, and the decoder dereferences the result", fname(f)))
+				return
+			}
+		}
+	}
+	c.R.Check(rule, name+"|nil error implies an object", n > 0, c.pos(f.Pos()), fmt.Sprintf("%d success returns, each with a non-nil object", n))
 }
